@@ -281,6 +281,8 @@ def run(cx):
     # RTT in the wrong unit (1000x) spaces keepalives further apart than the timeout
     from props.C14 import inst_time_units
     inst_time_units(cx, "C10.l")
+    from props.C14 import inst_rate_floor
+    inst_rate_floor(cx, "C10.m")
 
 
 SELFTEST = [
